@@ -216,3 +216,194 @@ def gen_kernel(repo, res):
         res.fail(key, f"IntegralGenerator.generate raises ({e.what}) for part=diagonal", loc)
     except ExecError as e:
         res.fail(key, f"part=diagonal: the generated kernel body is ill-formed: {e}", loc)
+
+
+@rule(
+    "GEN-KERNEL-FACET",
+    ["C02", "C03", "C05", "C08", "C01"],
+    "IntegralGenerator.generate interpreted as a whole on an interior-facet sample IR: a coefficient restricted to the '-' cell with a "
+    "permuted, entity-dependent table, test function on '+', trial function on '-'; executed symbolically with the macro extents of "
+    "ufcx.h enforced (A 6x6, w[coefficient][restriction][dof], two entity / permutation slots), the kernel must read slot 1 of "
+    "entity_local_index / quadrature_permutation and the '-' half of w for the '-' operands and write exactly the [+,-] block of A",
+    min_instances=1,
+)
+def gen_kernel_facet(repo, res):
+    m = repo.mod(IG)
+    g = m.func("IntegralGenerator.generate")
+    res.functions.add(g.key)
+    loc = m.line(g.node)
+    key = f"{g.key}:interior-facet"
+    res.ob(key)
+    it = _world(repo)
+    mesh = Node("Mesh", geometric_dimension=2, topological_dimension=2, ufl_id=_PyCall(lambda: 9),
+                ufl_coordinate_element=_PyCall(lambda: Node("CoordinateElement", _sub_element=Node("Element", dim=3))))
+    it.overrides["ufl.domain.extract_unique_domain"] = _PyCall(lambda t: mesh)
+    cf = Node("Coefficient", name="f", ufl_shape=())
+
+    def mt(term, **k):
+        d = dict(terminal=term, expr=term, restriction=None, averaged=None, global_derivatives=(), local_derivatives=(), component=(), flat_component=0, reference_value=False)
+        d.update(k)
+        return Node("ModifiedTerminal", **d)
+
+    def table(name, shape, offset=0, bs=1, ttype="varying", permuted=False):
+        return Node("UniqueTableReferenceT", name=name, values=Node("ndarray", shape=tuple(shape), size=shape[0] * shape[1] * shape[2] * shape[3]), offset=offset, block_size=bs,
+                    ttype=ttype, is_permuted=permuted, is_uniform=False, is_piecewise=False, has_tensor_factorisation=False, tensor_factors=None, tensor_permutation=None)
+    NQ, NE = 2, 3
+    r = Node("QuadratureRule", weights=NDArr([Node("Symbol", name=f"weights_rf[{q}]", dtype="DataType.REAL") for q in range(NQ)], (NQ,)),
+             points=Node("ndarray", shape=(NQ, 1), size=NQ), has_tensor_factors=False, tensor_factors=None, id=_PyCall(lambda: "rf"))
+    tabs = {"FE_fm": table("FE_fm", (2, NE, NQ, 3), offset=3, permuted=True), "FE_vp": table("FE_vp", (2, NE, NQ, 3), offset=0, permuted=True),
+            "FE_um": table("FE_um", (2, NE, NQ, 3), offset=3, permuted=True)}
+    ef = Node("CoefficientValue", name="f_minus", _ufl_is_literal_=False, ufl_operands=[], _ufl_handler_name_="f", ufl_shape=())
+    F = Node("ExpressionGraph", nodes={0: {"expression": ef, "status": "varying", "mt": mt(cf, restriction="-"), "tr": tabs["FE_fm"], "target": [(0, 1)]}})
+    mads = (Node("ModifiedArgumentDataT", ma_index=0, tabledata=tabs["FE_vp"]), Node("ModifiedArgumentDataT", ma_index=1, tabledata=tabs["FE_um"]))
+    bd = Node("BlockDataT", ttypes=("varying", "varying"), factor_indices_comp_indices=[(0, 0)], all_factors_piecewise=False, unames=("FE_vp", "FE_um"), restrictions=("+", "-"),
+              transposed=False, is_uniform=False, ma_data=mads, is_permuted=True)
+    integrand = {("interval", r): {"factorization": F, "modified_arguments": {0: mt(Node("Argument", name="v"), restriction="+"), 1: mt(Node("Argument", name="u"), restriction="-")},
+                                   "block_contributions": {((0, 1, 2), (3, 4, 5)): [bd]}}}
+    expr = Node("CommonExpressionIR", integrand=integrand, tensor_shape=[6, 6], entity_type="facet", integral_type="interior_facet", name="integral_dS",
+                unique_tables={"interval": {n: _table_values(n, t.f["values"].f["shape"]) for n, t in tabs.items()}},
+                unique_table_types={"interval": {n: "varying" for n in tabs}}, coefficient_numbering={cf: 0}, coefficient_offsets={cf: 0}, original_constant_offsets={},
+                needs_facet_permutations=True, coordinate_element_hash=1, number_coordinate_dofs=3, shape=())
+    ir = Node("IntegralIR", expression=expr, part="TensorPart.full", rank=2, enabled_coefficients=[True])
+    concrete = {"entity_local_index": {(0,): 1, (1,): 2}, "quadrature_permutation": {(0,): 1, (1,): 0}}
+    try:
+        backend = it.overrides["FFCXBackend"].fn(ir, {"scalar_type": "float64"})
+        gen = it.overrides["IntegralGenerator"].fn(ir, backend)
+        prog = it.call_f(g, [gen, "interval"])
+    except Raised as e:
+        res.fail(key, f"IntegralGenerator.generate raises ({e.what}) on the interior-facet sample", loc)
+        return
+    ex = Exec(("A",), concrete=concrete, extents={"A": (36,), "w": (6,), "coordinate_dofs": (18,), "entity_local_index": (2,), "quadrature_permutation": (2,)}, max_steps=400000)
+    try:
+        ex.run(prog)
+    except ExecError as e:
+        res.fail(key, f"the generated interior-facet kernel is ill-formed: {e}", loc)
+        return
+    got = ex.result()
+
+    def T(name, side, q, d):
+        s_ = 1 if side == "-" else 0
+        return Rat.var(f"{name}[{concrete['quadrature_permutation'][(s_,)]}, {concrete['entity_local_index'][(s_,)]}, {q}, {d}]")
+    want = {}
+    for i in range(3):
+        for j in range(3):
+            idx = i * 6 + (3 + j)
+            tot = Rat.var(f"A[{idx}]")
+            for q in range(NQ):
+                fm = sum((Rat.var(f"w[{3 + ic}]") * T("FE_fm", "-", q, ic) for ic in range(3)), Rat.const(0))
+                tot = tot + fm * Rat.var(f"weights_rf[{q}]") * T("FE_vp", "+", q, i) * T("FE_um", "-", q, j)
+            want[("A", (idx,))] = tot
+    for k_, w_ in want.items():
+        g_ = got.get(k_, Rat.var(f"A[{k_[1][0]}]"))
+        if not (g_ == w_):
+            res.fail(key, f"A[{k_[1][0]}] = {_show(g_)[:240]}; the [+,-] block entry of f('-')*v('+')*u('-')*dS is {_show(w_)[:240]} (tables as T[permutation][local facet][point][dof] with "
+                     "slot 0 for '+' and slot 1 for '-')", loc)
+            return
+    extra = sorted(k_[1][0] for k_ in got if k_ not in want)
+    if extra:
+        res.fail(key, f"the kernel also writes A{extra[:4]}, outside the [+,-] block", loc)
+
+
+EG = "ffcx.codegeneration.expression_generator"
+
+
+@rule(
+    "EXPR-KERNEL",
+    ["C04", "C07", "C08"],
+    "ExpressionGenerator.generate interpreted as a whole (with the backend objects built by their own constructors) on a sample "
+    "ExpressionIR: a two-component rank-1 expression at two points of a facet, component 0 = J00 * f, component 1 = g, argument table "
+    "permuted and entity dependent; executed symbolically with the extents enforced, the kernel must leave "
+    "A[(point*2 + component)*3 + dof] = A0[..] + component value at the point * argument table[permutation][facet][point][dof]",
+    min_instances=1,
+)
+def expr_kernel(repo, res):
+    m = repo.mod(EG)
+    g = m.func("ExpressionGenerator.generate")
+    res.functions.add(g.key)
+    for nm in ("__init__", "generate_element_tables", "generate_geometry_tables", "generate_piecewise_partition", "generate_varying_partition", "generate_partition",
+               "generate_quadrature_loop", "generate_dofblock_partition", "generate_block_parts", "get_arg_factors", "get_var"):
+        res.functions.add(m.func(f"ExpressionGenerator.{nm}").key)
+    loc = m.line(g.node)
+    key = f"{g.key}:facet-expression-two-components"
+    res.ob(key)
+    it = _world(repo)
+    it.primary = repo.mod(EG)
+    it.lalias = {a for a, t in it.primary.imports.items() if t == "ffcx.codegeneration.lnodes"}
+    it.obj_classes["ExpressionGenerator"] = EG
+    init = m.func("ExpressionGenerator.__init__")
+    import itertools as _it
+    it.overrides["pairwise"] = _PyCall(lambda x: list(_it.pairwise(list(x))))
+    it.overrides["product"] = _PyCall(lambda *xs: [tuple(t) for t in _it.product(*[list(x) for x in xs])])
+    it.overrides["ufl.product"] = _PyCall(lambda seq: __import__("math").prod(list(seq)))
+    mesh = Node("Mesh", geometric_dimension=2, topological_dimension=2, ufl_id=_PyCall(lambda: 5),
+                ufl_coordinate_element=_PyCall(lambda: Node("CoordinateElement", _sub_element=Node("Element", dim=3))))
+    it.overrides["ufl.domain.extract_unique_domain"] = _PyCall(lambda t: mesh)
+    cf, cg = Node("Coefficient", name="f", ufl_shape=()), Node("Coefficient", name="g", ufl_shape=())
+    Jt = Node("Jacobian", name="J", ufl_shape=(2, 2))
+
+    def mt(term, **k):
+        d = dict(terminal=term, expr=term, restriction=None, averaged=None, global_derivatives=(), local_derivatives=(), component=(), flat_component=0, reference_value=False)
+        d.update(k)
+        return Node("ModifiedTerminal", **d)
+
+    def table(name, shape, offset=0, bs=1, ttype="varying", permuted=False):
+        uniform = ttype in ("fixed", "ones", "zeros", "uniform")
+        piecewise = ttype in ("fixed", "ones", "zeros", "piecewise")
+        return Node("UniqueTableReferenceT", name=name, values=Node("ndarray", shape=tuple(shape), size=shape[0] * shape[1] * shape[2] * shape[3]), offset=offset, block_size=bs,
+                    ttype=ttype, is_permuted=permuted, is_uniform=uniform, is_piecewise=piecewise, has_tensor_factorisation=False, tensor_factors=None, tensor_permutation=None)
+    NQ, NE = 2, 3
+    r = Node("QuadratureRule", weights=NDArr([1, 1], (2,)), points=Node("ndarray", shape=(NQ, 1), size=NQ), has_tensor_factors=False, tensor_factors=None, id=_PyCall(lambda: "pts"))
+    tabs = {"FE_J": table("FE_J", (1, NE, 1, 3), ttype="piecewise"), "FE_f": table("FE_f", (1, NE, NQ, 3)), "FE_g": table("FE_g", (1, NE, NQ, 3)),
+            "FE_u": table("FE_u", (2, NE, NQ, 3), permuted=True)}
+
+    def uexpr(cls, name, ops=()):
+        return Node(cls, name=name, _ufl_is_literal_=False, ufl_operands=list(ops), _ufl_handler_name_=name, ufl_shape=())
+    eJ, ef, eg = uexpr("JacobianComponent", "J00"), uexpr("CoefficientValue", "f"), uexpr("CoefficientValue", "g")
+    prod = uexpr("Product", "product", [eJ, ef])
+    F = Node("ExpressionGraph", nodes={
+        0: {"expression": eJ, "status": "piecewise", "mt": mt(Jt, component=(0, 0)), "tr": tabs["FE_J"]},
+        1: {"expression": ef, "status": "varying", "mt": mt(cf), "tr": tabs["FE_f"]},
+        2: {"expression": eg, "status": "varying", "mt": mt(cg), "tr": tabs["FE_g"]},
+        3: {"expression": prod, "status": "varying"},
+    })
+    bd = Node("BlockDataT", ttypes=("varying",), factor_indices_comp_indices=[(3, 0), (2, 1)], all_factors_piecewise=False, unames=("FE_u",), restrictions=(None,), transposed=False,
+              is_uniform=False, ma_data=(Node("ModifiedArgumentDataT", ma_index=0, tabledata=tabs["FE_u"]),), is_permuted=True)
+    keyq = ("interval", r)
+    integrand = {keyq: {"factorization": F, "modified_arguments": {0: mt(Node("Argument", name="u"))}, "block_contributions": {((0, 1, 2),): [bd]}}}
+    expr = Node("CommonExpressionIR", integrand=integrand, tensor_shape=[3], entity_type="facet", integral_type="expression", name="expression_x", shape=(2,),
+                unique_tables={"interval": {n: _table_values(n, t.f["values"].f["shape"]) for n, t in tabs.items()}},
+                unique_table_types={"interval": {n: t.f["ttype"] for n, t in tabs.items()}}, coefficient_numbering={cf: 0, cg: 1}, coefficient_offsets={cf: 0, cg: 3},
+                original_constant_offsets={}, needs_facet_permutations=True, coordinate_element_hash=1, number_coordinate_dofs=3)
+    ir = Node("ExpressionIR", expression=expr)
+    concrete = {"entity_local_index": {(0,): 1}, "quadrature_permutation": {(0,): 1}}
+    try:
+        backend = it.overrides["FFCXBackend"].fn(ir, {"scalar_type": "float64"})
+        gen = Node("ExpressionGenerator")
+        it.call_f(init, [gen, ir, backend])
+        prog = it.call_f(g, [gen])
+    except Raised as e:
+        res.fail(key, f"ExpressionGenerator.generate raises ({e.what}) on the sample expression", loc)
+        return
+    ex = Exec(("A",), concrete=concrete, extents={"A": (NQ * 2 * 3,), "w": (6,), "coordinate_dofs": (9,), "entity_local_index": (1,), "quadrature_permutation": (1,)}, max_steps=400000)
+    try:
+        ex.run(prog)
+    except ExecError as e:
+        res.fail(key, f"the generated expression kernel is ill-formed: {e}", loc)
+        return
+    got = ex.result()
+    ent, perm = 1, 1
+
+    def T(name, p, e_, q, d):
+        return Rat.var(f"{name}[{p}, {e_}, {q}, {d}]")
+    J = sum((Rat.var(f"coordinate_dofs[{3 * ic}]") * T("FE_J", 0, ent, 0, ic) for ic in range(3)), Rat.const(0))
+    for q in range(NQ):
+        fq = sum((Rat.var(f"w[{ic}]") * T("FE_f", 0, ent, q, ic) for ic in range(3)), Rat.const(0))
+        gq = sum((Rat.var(f"w[{3 + ic}]") * T("FE_g", 0, ent, q, ic) for ic in range(3)), Rat.const(0))
+        for comp, val in ((0, J * fq), (1, gq)):
+            for d in range(3):
+                idx = (q * 2 + comp) * 3 + d
+                want = Rat.var(f"A[{idx}]") + val * T("FE_u", perm, ent, q, d)
+                g_ = got.get(("A", (idx,)), Rat.var(f"A[{idx}]"))
+                if not (g_ == want):
+                    res.fail(key, f"A[{idx}] (point {q}, component {comp}, dof {d}) = {_show(g_)[:220]}; the expression there is {_show(want)[:220]}", loc)
+                    return
